@@ -29,6 +29,18 @@ class Facts:
             if f.get("def_kind") == "Closure":
                 self._closure_children[f["parent"]].append(p)
         self._cg = None
+        # named constants whose value is a literal: `const EXIT: i32 = 10;` reads as 10 wherever it is mentioned
+        CONSTS.clear()
+        for p, f in self.fns.items():
+            if f.get("def_kind") in ("Const", "AssocConst", "Static") or ("hir" in f and not f["hir"].get("params")):
+                if "hir" not in f:
+                    continue
+                v = f["hir"]["value"]
+                while isinstance(v, dict) and v.get("k") in ("Block",) and not v.get("stmts") and v.get("expr") is not None:
+                    v = v["expr"]
+                lv = _plain_lit(v)
+                if lv is not None and f.get("def_kind") not in ("Fn", "AssocFn", "Closure"):
+                    CONSTS[p] = lv
 
     # ---------------------------------------------------------------- lookups
     def fn(self, path):
@@ -307,10 +319,28 @@ def loc(n):
     return n.get("sp", "?")
 
 
+CONSTS = {}
+
+
+def _plain_lit(e):
+    e = peel(e) if isinstance(e, dict) else {}
+    if e.get("k") == "Lit":
+        return e["lit"]["v"]
+    if e.get("k") == "Unary" and e.get("op") == "Neg":
+        v = _plain_lit(e["a"])
+        if isinstance(v, int):
+            return -v
+    return None
+
+
 def lit_value(e):
     e = peel(e)
     if e.get("k") == "Lit":
         return e["lit"]["v"]
+    if e.get("k") == "Path" and e.get("res_kind") in ("Const", "AssocConst") and e.get("res") in CONSTS:
+        return CONSTS[e["res"]]
+    if e.get("k") == "PExpr" and isinstance(e.get("e"), dict):
+        return lit_value(e["e"])
     if e.get("k") == "Unary" and e.get("op") == "Neg":
         v = lit_value(e["a"])
         if isinstance(v, int):
@@ -582,3 +612,51 @@ def bool_eval(e, classify, env):
         y = bool_eval(e["b"], classify, env)
         return (x == y) if e["op"] == "Eq" else (x != y)
     raise BoolUnx(ekey(e)[:60])
+
+
+
+def path_constraints(pm, node):
+    """conditions that hold whenever `node` is reached inside its function body, as [(cond expr, value)]:
+    the enclosing `if` branches, and earlier statements of the enclosing blocks of the form `if C { continue | break | return }`"""
+    out = []
+    x = node
+    while id(x) in pm:
+        par = pm[id(x)]
+        if par.get("k") == "If":
+            c = par["cond"]
+            while c.get("k") in ("DropTemps", "Use"):
+                c = c["e"]
+            if c.get("k") != "LetExpr":
+                if par.get("then") is x or any(y is x for y in [par.get("then")]):
+                    out.append((c, True))
+                elif par.get("else") is x:
+                    out.append((c, False))
+        if par.get("k") == "Block":
+            for st in par.get("stmts", []):
+                if st is x or any(y is x for y in walk(st, pats=False)):
+                    break
+                e = peel(st.get("e") or {})
+                if e.get("k") == "If" and e.get("else") is None:
+                    c = e["cond"]
+                    while c.get("k") in ("DropTemps", "Use"):
+                        c = c["e"]
+                    if c.get("k") != "LetExpr":
+                        th = peel(e["then"])
+                        last = (th.get("stmts") or [{}])[-1] if th.get("k") == "Block" else {}
+                        tail = peel(th.get("expr") or last.get("e") or {}) if th.get("k") == "Block" else th
+                        if tail.get("k") in ("Continue", "Break", "Ret"):
+                            out.append((c, False))
+        x = par
+    return out
+
+
+def implied_by_path(pm, node, classify, atom):
+    """True if `node` can only be reached when `atom` holds (judged from path_constraints; other atoms are unknown)"""
+    for c, want in path_constraints(pm, node):
+        try:
+            v = bool_eval(c, classify, {atom: False})
+        except BoolUnx:
+            continue
+        if v != want:
+            return True
+    return False
